@@ -69,3 +69,24 @@ Theorem C11_mean_variance_running : forall hist x,
   m == qsum xs / qnat (length xs) /\ v == sqdev xs m.
 Proof. exact mv_running. Qed.
 Print Assumptions C11_mean_variance_running.
+
+(* ---- the generic (float / integer) model of the bit-exact stream, instantiated at the rationals, is the model above ---- *)
+From Signalo Require Base.Arith Model.Generic Proofs.Generic.
+Theorem C11_generic_sum : forall s x, Signalo.Model.Generic.g_sum_step Signalo.Base.Arith.Qar s x = Signalo.Model.Sinks.sum_step s x.
+Proof. exact Signalo.Proofs.Generic.gq_sum. Qed.
+Print Assumptions C11_generic_sum.
+Theorem C11_generic_mean : forall s x, Signalo.Model.Generic.g_smean_step Signalo.Base.Arith.Qar s x = Signalo.Model.Sinks.mean_step s x.
+Proof. exact Signalo.Proofs.Generic.gq_smean. Qed.
+Print Assumptions C11_generic_mean.
+Theorem C11_generic_mean_variance : forall s x, (let '(s', y) := Signalo.Model.Generic.g_smv_step Signalo.Base.Arith.Qar s x in (Signalo.Proofs.Generic.mv_of s', y)) = Signalo.Model.Sinks.mv_step (Signalo.Proofs.Generic.mv_of s) x.
+Proof. exact Signalo.Proofs.Generic.gq_smv. Qed.
+Print Assumptions C11_generic_mean_variance.
+Theorem C11_generic_finalize : forall s, Signalo.Model.Generic.g_smv_fin Signalo.Base.Arith.Qar s = Signalo.Model.Sinks.mv_fin (Signalo.Proofs.Generic.mv_of s).
+Proof. exact Signalo.Proofs.Generic.gq_smv_fin. Qed.
+Print Assumptions C11_generic_finalize.
+Theorem C11_generic_min : forall s x, Signalo.Model.Generic.g_smin_step Signalo.Base.Arith.Qar s x = Signalo.Model.Sinks.min_step s x.
+Proof. exact Signalo.Proofs.Generic.gq_smin. Qed.
+Print Assumptions C11_generic_min.
+Theorem C11_generic_max : forall s x, Signalo.Model.Generic.g_smax_step Signalo.Base.Arith.Qar s x = Signalo.Model.Sinks.max_step s x.
+Proof. exact Signalo.Proofs.Generic.gq_smax. Qed.
+Print Assumptions C11_generic_max.
